@@ -186,6 +186,11 @@ def oracle_history(rng, nsteps):
                 if before[2] == 0:
                     continue
                 H, psi = pool[op['iH']], pool[op['i']]
+                if h in ('tdvp1', 'tdvp2') and np.linalg.norm(dense_mpo(H), 2) * abs(op['dt']) * op['numsteps'] > 30:
+                    # exp(-dt H) overflows / loses all precision: floating-point range, not block sparsity (operators in the
+                    # pool are products and sums of products, their norms grow geometrically along a history)
+                    log.pop()
+                    continue
                 if h == 'tdvp1':
                     ptn.integrate_local_singlesite(H, psi, op['dt'], op['numsteps'], numiter_lanczos=max(op['numiter'], 4))
                 elif h == 'tdvp2':
@@ -198,6 +203,10 @@ def oracle_history(rng, nsteps):
                 o = pool[op['i']]
                 pool.append(mpsgen.copy_mpo(o) if type(o).__name__ == 'MPO' else mpsgen.copy_mps(o))
         except Exception as ex:
+            if isinstance(ex, (np.linalg.LinAlgError, FloatingPointError, OverflowError)) or \
+                    any(a is not None and (not np.all(np.isfinite(a)) or np.abs(a).max(initial=0) > 1e120) for o in pool for a in o.A):
+                # overflow / non-finite values / LAPACK non-convergence: outside the exact model and outside the property
+                return None, log
             return f'step {len(log)} ({op}) raises {type(ex).__name__}: {ex}', log
         for i, o in enumerate(pool):
             try:
